@@ -412,3 +412,78 @@ func (m *muxTop) Close() error {
 
 // Ctx is a convenience background context.
 var Ctx = context.Background()
+
+// OpenMux creates one multiplexer of the given kind over below and opens every
+// listed channel on it. below is ask-capable when ask is true.
+func OpenMux(kind string, below Swarm, ask bool, ids []string) (out []Swarm, err error) {
+	defer func() {
+		if r := recover(); r != nil {
+			err = fmt.Errorf("mux constructor/Open panicked: %v", r)
+		}
+	}()
+	switch kind {
+	case "string":
+		if ask {
+			m := p2pmux.NewStringAskMux[Addr](below.(p2p.AskSwarm[Addr]))
+			for _, id := range ids {
+				out = append(out, m.Open(id))
+			}
+		} else {
+			m := p2pmux.NewStringMux[Addr](below)
+			for _, id := range ids {
+				out = append(out, m.Open(id))
+			}
+		}
+	case "uint16":
+		if ask {
+			m := p2pmux.NewUint16AskMux[Addr](below)
+			for _, id := range ids {
+				out = append(out, m.Open(uint16(ParseUint(id))))
+			}
+		} else {
+			m := p2pmux.NewUint16Mux[Addr](below)
+			for _, id := range ids {
+				out = append(out, m.Open(uint16(ParseUint(id))))
+			}
+		}
+	case "uint32":
+		if ask {
+			m := p2pmux.NewUint32AskMux[Addr](below)
+			for _, id := range ids {
+				out = append(out, m.Open(uint32(ParseUint(id))))
+			}
+		} else {
+			m := p2pmux.NewUint32Mux[Addr](below)
+			for _, id := range ids {
+				out = append(out, m.Open(uint32(ParseUint(id))))
+			}
+		}
+	case "uint64":
+		if ask {
+			m := p2pmux.NewUint64AskMux[Addr](below)
+			for _, id := range ids {
+				out = append(out, m.Open(ParseUint(id)))
+			}
+		} else {
+			m := p2pmux.NewUint64Mux[Addr](below)
+			for _, id := range ids {
+				out = append(out, m.Open(ParseUint(id)))
+			}
+		}
+	case "varint":
+		if ask {
+			m := p2pmux.NewVarintAskMux[Addr](below)
+			for _, id := range ids {
+				out = append(out, m.Open(ParseUint(id)))
+			}
+		} else {
+			m := p2pmux.NewVarintMux[Addr](below)
+			for _, id := range ids {
+				out = append(out, m.Open(ParseUint(id)))
+			}
+		}
+	default:
+		return nil, fmt.Errorf("unknown mux kind %q", kind)
+	}
+	return out, nil
+}
